@@ -33,7 +33,10 @@ def proc_name_bytes(max_bytes=19):
     ascii_name = st.text(name_alphabet, min_size=0, max_size=max_bytes).map(lambda s: s.encode())
     uni = st.text(st.characters(min_codepoint=0x20, max_codepoint=0x2fff, exclude_categories=('Cs', 'Cc')),
                   min_size=0, max_size=max_bytes).map(lambda s: s.encode('utf8')).filter(lambda b: len(b) <= max_bytes)
-    return st.one_of(ascii_name, ascii_name, uni)
+    # names are carried as stored: also text that is not in a normal form (decomposed accents as file systems hand them out)
+    raw = st.lists(st.sampled_from(['e\u0301', 'A\u030a', '\u212b', 'n\u0303', 'Caf', 'x', '.', '\ufb01']), min_size=1, max_size=4).map(
+        lambda l: ''.join(l).encode('utf8')).filter(lambda b: len(b) <= max_bytes)
+    return st.one_of(ascii_name, ascii_name, uni, raw)
 
 
 def expand_words(seed, k=0):
